@@ -308,6 +308,70 @@ pub fn child(args: &Args) -> i32 {
             print_init_events();
             status
         }
+        "tls" => {
+            // short-lived workers that keep their codecs in their OWN thread-locals (touched before the first codec
+            // exists, so the codecs are dropped late during thread teardown)
+            use reed_solomon_simd::{ReedSolomonDecoder, ReedSolomonEncoder};
+            use std::cell::RefCell;
+            thread_local! {
+                static TL_ENC: RefCell<Option<ReedSolomonEncoder>> = const { RefCell::new(None) };
+                static TL_DEC: RefCell<Option<ReedSolomonDecoder>> = const { RefCell::new(None) };
+                static TL_MARK: RefCell<Vec<u8>> = const { RefCell::new(Vec::new()) };
+            }
+            let n = args.num("n", 4) as usize;
+            let mut handles = Vec::new();
+            for i in 0..n {
+                handles.push(std::thread::spawn(move || -> (usize, &'static str, String) {
+                    let (k, r, sb) = (6usize, 3usize, 66usize);
+                    // touch the slots first: their destructors are registered before any codec exists
+                    TL_MARK.with(|m| m.borrow_mut().push(1));
+                    TL_ENC.with(|c| assert!(c.borrow().is_none()));
+                    TL_DEC.with(|c| assert!(c.borrow().is_none()));
+                    let mut all: Vec<Vec<u8>> = Vec::new();
+                    for job in 0..3u64 {
+                        let orig: Vec<Vec<u8>> = (0..k).map(|j| util::payload(seed + i as u64, 0x71 + job, j as u64, sb)).collect();
+                        let rec: Vec<Vec<u8>> = TL_ENC.with(|c| {
+                            let mut c = c.borrow_mut();
+                            let e = c.get_or_insert_with(|| ReedSolomonEncoder::new(k, r, sb).unwrap());
+                            for o in &orig {
+                                e.add_original_shard(o).unwrap();
+                            }
+                            let res = e.encode().unwrap();
+                            res.recovery_iter().map(<[u8]>::to_vec).collect()
+                        });
+                        TL_DEC.with(|c| {
+                            let mut c = c.borrow_mut();
+                            let d = c.get_or_insert_with(|| ReedSolomonDecoder::new(k, r, sb).unwrap());
+                            for j in 0..r {
+                                d.add_recovery_shard(j, &rec[j]).unwrap();
+                            }
+                            for j in r..k {
+                                d.add_original_shard(j, &orig[j]).unwrap();
+                            }
+                            let res = d.decode().unwrap();
+                            for (j, b) in res.restored_original_iter() {
+                                assert_eq!(b, &orig[j][..]);
+                            }
+                        });
+                        all.extend(rec);
+                    }
+                    let parts: Vec<&[u8]> = all.iter().map(Vec::as_slice).collect();
+                    (i, "tls", format!("{:016x}", util::fnv_many(parts)))
+                }));
+            }
+            let mut status = 0;
+            for h in handles {
+                match h.join() {
+                    Ok((slot, engine, dig)) => println!("{}", Obj::new().str("ev", "result").int("slot", slot as i64).str("engine", engine).str("dig", &dig).done()),
+                    Err(p) => {
+                        println!("{}", Obj::new().str("ev", "panic").str("msg", &util::panic_message(&*p)).done());
+                        status = 3;
+                    }
+                }
+            }
+            print_init_events();
+            status
+        }
         "nested" => {
             // one-shot calls whose input iterators are fed by OTHER threads' concurrent one-shot calls:
             // independent calls share no state, so this must complete and equal sequential execution
@@ -468,6 +532,21 @@ fn expected_pingpong(n: usize, seed: u64) -> Vec<(usize, String)> {
         .collect()
 }
 
+fn expected_tls(n: usize, seed: u64) -> Vec<(usize, String)> {
+    (0..n)
+        .map(|i| {
+            let (k, r, sb) = (6usize, 3usize, 66usize);
+            let mut all: Vec<Vec<u8>> = Vec::new();
+            for job in 0..3u64 {
+                let orig: Vec<Vec<u8>> = (0..k).map(|j| util::payload(seed + i as u64, 0x71 + job, j as u64, sb)).collect();
+                all.extend(reed_solomon_simd::encode(k, r, &orig).unwrap());
+            }
+            let parts: Vec<&[u8]> = all.iter().map(Vec::as_slice).collect();
+            (i, format!("{:016x}", util::fnv_many(parts)))
+        })
+        .collect()
+}
+
 fn expected_nested(n: usize, seed: u64) -> Vec<(usize, String)> {
     (0..n)
         .map(|i| {
@@ -592,8 +671,8 @@ pub fn main(args: &Args) -> i32 {
     let storms = args.num("storms", 6 * races as u64) as usize;
     let mut jobs: Vec<(usize, &'static str, usize, u64)> = Vec::new();
     for i in 0..races {
-        let mode = if i % 5 == 2 { "nested" } else if i % 5 == 4 { "pingpong" } else { "race" };
-        let n = if mode == "nested" { 3 } else if mode == "pingpong" { 2 } else { 2 + (i % 7) };
+        let mode = if i % 5 == 2 { "nested" } else if i % 5 == 4 { "pingpong" } else if i % 10 == 3 { "tls" } else { "race" };
+        let n = if mode == "nested" { 3 } else if mode == "pingpong" { 2 } else if mode == "tls" { 4 } else { 2 + (i % 7) };
         jobs.push((i, mode, n, seed * 1000 + i as u64));
     }
     let storm_jobs: Vec<(usize, &'static str, usize, u64)> = (0..storms).map(|i| (races + i, "storm", if i % 2 == 0 { 16 } else { 32 }, seed * 1000 + 500 + i as u64)).collect();
@@ -627,6 +706,7 @@ pub fn main(args: &Args) -> i32 {
             "storm" => expected_storm(n, s),
             "nested" => expected_nested(n, s),
             "pingpong" => expected_pingpong(n, s),
+            "tls" => expected_tls(n, s),
             _ => expected(n, s),
         };
         let nexpected = if mode == "race" { 2 * n } else { n };
